@@ -395,6 +395,35 @@ class SandboxedEnvironment(Environment):
         rather than in :meth:`call`, so that calls made without ``call`` are
         also sandboxed.
         """
+        # A functools.partial of a format method is a partial of the wrapper.
+        if isinstance(value, partial):
+            inner = self.wrap_str_format(value.func)
+
+            if inner is None:
+                return None
+
+            return partial(inner, *value.args, **value.keywords)
+
+        # The unbound method, ``str.format``, takes the format string as
+        # first argument.
+        if (
+            isinstance(value, types.MethodDescriptorType)
+            and value.__name__ in ("format", "format_map")
+            and issubclass(value.__objclass__, str)
+        ) or value is Markup.format or value is Markup.format_map:
+            method_name = value.__name__
+
+            def unbound_wrapper(*args: t.Any, **kwargs: t.Any) -> str:
+                if not args or not isinstance(args[0], str):
+                    raise TypeError(
+                        f"descriptor {method_name!r} requires a 'str' object"
+                    )
+
+                bound = self.wrap_str_format(getattr(args[0], method_name))
+                return bound(*args[1:], **kwargs)  # type: ignore[misc]
+
+            return update_wrapper(unbound_wrapper, value)
+
         if not isinstance(
             value, (types.MethodType, types.BuiltinMethodType)
         ) or value.__name__ not in ("format", "format_map"):
